@@ -18,6 +18,7 @@ type memberSet struct {
 	members []interface{}
 	obj     bool
 	root    map[string]interface{} // extra root members ($.x, $.y) when the container is nested under "m"
+	respell func(js string) string // optional: other spellings of the document's numbers (same values)
 }
 
 // selection runs `$.m[?(q)]` (or `$[?(q)]`) and maps the result back to member indices.
@@ -36,6 +37,9 @@ func (ms *memberSet) doc(useNum bool) (interface{}, string) {
 		root[k] = v
 	}
 	js := lib.JS(root)
+	if ms.respell != nil {
+		js = ms.respell(js)
+	}
 	return lib.Decode(js, useNum), js
 }
 
